@@ -46,6 +46,24 @@ type WOp struct {
 	// modulo their number): origin and prefix are dropped, the path becomes
 	// that leaf's index path as plain elements.
 	Pick int `json:"pick,omitempty"`
+	// Star: a re-addressed delete replaces the last element of the picked
+	// leaf's path by "*" (a glob delete over its siblings).
+	Star bool `json:"star,omitempty"`
+	// Back>0: the timestamp lies Back operations in the past (between the
+	// timestamps of earlier operations) instead of being the newest.
+	Back int `json:"back,omitempty"`
+	// Bulk adds N updates At/k<Start>..At/k<Start+N-1>[/Leaf] with value V.
+	Bulk *Bulk `json:"bulk,omitempty"`
+}
+
+// Bulk is a run of sibling leaves written by one notification: sizes past the
+// usual capacity steps (32, 64, 128, 256).
+type Bulk struct {
+	At    []gn.Elem `json:"at,omitempty"`
+	Start int       `json:"start"`
+	N     int       `json:"n"`
+	Leaf  string    `json:"leaf,omitempty"`
+	V     int64     `json:"v"`
 }
 
 // Step is one step of the schedule; the harness waits for quiescence after each.
@@ -93,26 +111,29 @@ type profile struct {
 	preload                int // writer steps generated before anything else
 	starPct                int // percentage of all-targets subscriptions
 	pickPct                int // percentage of writer notifications addressed to an existing leaf
+	aclPct                 int // percentage of scenarios with an access-control table (acl=true means 100)
+	bulkPct                int // percentage of writer notifications that carry a bulk run
+	bulkNs                 []int
 }
 
 var profiles = map[string]profile{
-	"C04": {minTargets: 1, maxTargets: 2, modes: []string{"stream"}, gatedPct: 25, maxSteps: 30, maxSubs: 3, preload: 3, starPct: 30, pickPct: 40,
+	"C04": {minTargets: 1, maxTargets: 2, modes: []string{"stream"}, gatedPct: 25, maxSteps: 30, maxSubs: 3, preload: 3, starPct: 30, pickPct: 40, bulkPct: 4, bulkNs: []int{5, 33, 40, 70, 130},
 		weights: map[string]int{"w": 14, "start": 5, "release": 5, "relw": 3, "grant": 3, "check": 2, "drain": 2, "sleep": 1},
 		wkinds:  []string{"noti", "noti", "noti", "noti", "noti", "noti", "noti", "noti", "reset", "sync", "updmeta"},
 		parks:   []string{"", "sub.pre-register", "sub.registered", "sub.walk.begin", "sub.walk.end", "coalesce.next.empty"}},
-	"C05": {minTargets: 1, maxTargets: 3, modes: []string{"once", "poll", "poll"}, gatedPct: 20, maxSteps: 24, maxSubs: 3, preload: 5, starPct: 35, pickPct: 30,
+	"C05": {minTargets: 1, maxTargets: 3, modes: []string{"once", "poll", "poll"}, gatedPct: 20, maxSteps: 24, maxSubs: 3, preload: 5, starPct: 35, pickPct: 30, bulkPct: 5, bulkNs: []int{5, 33, 70, 130, 257, 300, 520},
 		weights: map[string]int{"w": 6, "start": 6, "release": 3, "poll": 6, "eof": 2, "grant": 2, "drain": 2, "sleep": 2},
 		wkinds:  []string{"noti", "noti", "noti", "noti", "reset", "remove", "add"},
 		parks:   []string{"", "", "sub.walk.begin", "sub.walk.end", "coalesce.next.empty", "coalesce.next.empty"}},
-	"C07": {minTargets: 2, maxTargets: 4, modes: []string{"stream", "stream", "once", "poll"}, acl: true, gatedPct: 15, maxSteps: 30, maxSubs: 4, preload: 4, starPct: 60, pickPct: 30,
-		weights: map[string]int{"w": 14, "start": 6, "release": 3, "relw": 2, "poll": 2, "grant": 2, "check": 2, "drain": 2},
+	"C07": {minTargets: 2, maxTargets: 4, modes: []string{"stream", "stream", "once", "poll"}, acl: true, gatedPct: 15, maxSteps: 30, maxSubs: 4, preload: 4, starPct: 60, pickPct: 30, timeout: true, bulkPct: 3, bulkNs: []int{5, 40, 70},
+		weights: map[string]int{"w": 14, "start": 6, "release": 3, "relw": 2, "poll": 2, "grant": 2, "check": 2, "drain": 2, "sleep": 2},
 		wkinds:  []string{"noti", "noti", "noti", "noti", "noti", "noti", "reset", "remove", "add"},
 		parks:   []string{"", "", "sub.registered", "sub.walk.begin"}},
-	"C08": {minTargets: 1, maxTargets: 2, modes: []string{"stream"}, gatedPct: 70, maxSteps: 36, maxSubs: 3, preload: 3, timeout: true, starPct: 30, pickPct: 60,
+	"C08": {minTargets: 1, maxTargets: 2, modes: []string{"stream"}, gatedPct: 70, maxSteps: 36, maxSubs: 3, preload: 3, timeout: true, starPct: 30, pickPct: 60, aclPct: 25, bulkPct: 5, bulkNs: []int{5, 33, 40, 70, 130},
 		weights: map[string]int{"w": 18, "start": 4, "grant": 6, "sleep": 4, "check": 3, "drain": 3},
 		wkinds:  []string{"noti", "noti", "noti", "noti", "noti", "noti", "noti", "noti", "noti", "noti", "noti", "noti", "noti", "noti", "reset"},
 		parks:   []string{""}},
-	"C14": {minTargets: 2, maxTargets: 4, modes: []string{"stream"}, gatedPct: 10, maxSteps: 30, maxSubs: 4, preload: 4, starPct: 35, pickPct: 30,
+	"C14": {minTargets: 2, maxTargets: 4, modes: []string{"stream"}, gatedPct: 10, maxSteps: 30, maxSubs: 4, preload: 4, starPct: 35, pickPct: 30, bulkPct: 4, bulkNs: []int{5, 40, 70},
 		weights: map[string]int{"w": 14, "start": 6, "release": 2, "check": 2, "drain": 3},
 		wkinds:  []string{"noti", "noti", "noti", "noti", "noti", "reset", "remove", "remove", "add", "add"},
 		parks:   []string{"", "", "sub.registered"}},
@@ -120,16 +141,35 @@ var profiles = map[string]profile{
 
 var stepOrder = []string{"w", "start", "release", "relw", "grant", "poll", "eof", "cancel", "sleep", "check", "drain"}
 
+// richNames switches the element alphabet of the scenario being generated to
+// names of which one is a string prefix of another and one contains the "/"
+// that a joined representation would use as its separator (set from a rapid
+// draw at the start of every scenario; generation is single-threaded).
+var richNames bool
+
+func siblingOdds() int {
+	if richNames {
+		return 3
+	}
+	return 1
+}
+
 func genElem(t *rapid.T, glob bool) gn.Elem {
 	alpha := []string{"a", "b", "c"}
+	if richNames {
+		alpha = []string{"a", "a", "ab", "a/b", "a1"}
+	}
 	if glob {
-		alpha = []string{"a", "b", "c", "*", "*"}
+		alpha = append(append([]string{}, alpha...), "*", "*")
 	}
 	e := gn.Elem{Name: rapid.SampledFrom(alpha).Draw(t, "name")}
 	if e.Name != "*" && rapid.IntRange(0, 7).Draw(t, "keyed") == 0 {
 		vals := []string{"1", "2"}
+		if richNames {
+			vals = []string{"1", "10", "1/0", "2"}
+		}
 		if glob {
-			vals = []string{"1", "2", "*"}
+			vals = append(append([]string{}, vals...), "*")
 		}
 		e.Keys = map[string]string{"k": rapid.SampledFrom(vals).Draw(t, "kval")}
 	}
@@ -170,6 +210,26 @@ func genWOp(pr profile, targets int) func(t *rapid.T) *WOp {
 		w.Origin = rapid.SampledFrom([]string{"", "", "", "o"}).Draw(t, "origin")
 		w.Prefix = genElems(t, 0, 1, false)
 		w.Old = rapid.IntRange(0, 9).Draw(t, "old") == 0
+		if w.Pick > 0 {
+			w.Star = rapid.IntRange(0, 2).Draw(t, "star") == 0
+		}
+		if rapid.IntRange(0, 5).Draw(t, "backdated") == 0 {
+			w.Back = rapid.IntRange(1, 6).Draw(t, "back")
+		}
+		if pr.bulkPct > 0 && rapid.IntRange(0, 99).Draw(t, "bulk") < pr.bulkPct {
+			defer func() {
+				if w.Atomic {
+					return
+				}
+				w.Bulk = &Bulk{
+					At:    genElems(t, 0, 1, false),
+					Start: rapid.SampledFrom([]int{0, 0, 20, 100}).Draw(t, "bulk-start"),
+					N:     rapid.SampledFrom(pr.bulkNs).Draw(t, "bulk-n"),
+					Leaf:  rapid.SampledFrom([]string{"", "", "a"}).Draw(t, "bulk-leaf"),
+					V:     int64(rapid.IntRange(0, 1).Draw(t, "bulk-v")),
+				}
+			}()
+		}
 		switch shape := rapid.IntRange(0, 9).Draw(t, "shape"); {
 		case shape <= 4:
 			w.Updates = []Upd{{Path: genElems(t, 1, 2, false), Val: genVal(t)}}
@@ -224,6 +284,11 @@ func genSub(pr profile, targets, users int) func(t *rapid.T) SubSpec {
 		np := rapid.IntRange(1, 3).Draw(t, "npaths")
 		for i := 0; i < np; i++ {
 			p := PathSpec{Elems: genElems(t, 0, rapid.SampledFrom([]int{0, 1, 1, 2, 3}).Draw(t, "maxlen"), true)}
+			if i > 0 && len(s.Paths[i-1].Elems) > 0 && rapid.IntRange(0, 5).Draw(t, "sibling") < siblingOdds() {
+				// a sibling of the previous path: same parent, another last element
+				prev := s.Paths[i-1].Elems
+				p.Elems = append(append([]gn.Elem{}, prev[:len(prev)-1]...), genElem(t, true))
+			}
 			if where == "path" || where == "both" || where == "path+pelems" {
 				p.Origin = "o"
 			}
@@ -312,6 +377,22 @@ func genBurstScenario(t *rapid.T) *Scenario {
 	sc.Steps = append(sc.Steps, Step{Kind: "drain"})
 	rounds := rapid.IntRange(1, 3).Draw(t, "rounds")
 	for r := 0; r < rounds; r++ {
+		if rapid.IntRange(0, 3).Draw(t, "big") == 0 {
+			// a big round: a backlog of many distinct leaves builds up behind a subscriber without
+			// credit, some of it is taken, more distinct leaves arrive, then everything drains
+			bulk := func(label string, start int) *WOp {
+				return &WOp{Kind: "noti", T: rapid.IntRange(0, sc.Targets-1).Draw(t, label+"t"),
+					Bulk: &Bulk{Start: start, N: rapid.SampledFrom([]int{20, 33, 40, 65, 70, 130}).Draw(t, label+"n"), V: int64(rapid.IntRange(0, 1).Draw(t, label+"v"))}}
+			}
+			sc.Steps = append(sc.Steps, Step{Kind: "w", W: bulk("big1", 0)})
+			sc.Steps = append(sc.Steps, Step{Kind: "grant", Sub: rapid.IntRange(0, nsubs-1).Draw(t, "bgsub"), N: rapid.SampledFrom([]int{1, 3, 10, 33}).Draw(t, "bgn")})
+			sc.Steps = append(sc.Steps, Step{Kind: "w", W: bulk("big2", rapid.SampledFrom([]int{0, 50, 200}).Draw(t, "big2start"))})
+			if rapid.Bool().Draw(t, "bigdel") {
+				sc.Steps = append(sc.Steps, Step{Kind: "w", W: &WOp{Kind: "noti", T: rapid.IntRange(0, sc.Targets-1).Draw(t, "bdt"), Deletes: [][]gn.Elem{{{Name: "*"}}}, Back: rapid.IntRange(0, 2).Draw(t, "bdback")}})
+			}
+			sc.Steps = append(sc.Steps, Step{Kind: "drain"})
+			continue
+		}
 		n := rapid.IntRange(2, 9).Draw(t, "burst")
 		for i := 0; i < n; i++ {
 			sc.Steps = append(sc.Steps, Step{Kind: "w", W: single("b")})
@@ -337,15 +418,17 @@ func genScenario(prop string) func(t *rapid.T) *Scenario {
 	pr := profiles[prop]
 	return func(t *rapid.T) *Scenario {
 		if prop == "C08" && rapid.IntRange(0, 3).Draw(t, "structured") > 0 {
+			richNames = false
 			return genBurstScenario(t)
 		}
+		richNames = rapid.IntRange(0, 2).Draw(t, "rich-names") == 0
 		sc := &Scenario{Targets: rapid.IntRange(pr.minTargets, pr.maxTargets).Draw(t, "targets")}
 		sc.EventDriven = rapid.IntRange(0, 3).Draw(t, "eventdriven") > 0
 		if pr.timeout {
 			sc.TimeoutSec = rapid.SampledFrom([]int{0, 10, 10, 30}).Draw(t, "timeout")
 		}
 		users := 1
-		if pr.acl {
+		if pr.acl || (pr.aclPct > 0 && rapid.IntRange(0, 99).Draw(t, "withacl") < pr.aclPct) {
 			users = rapid.IntRange(1, 3).Draw(t, "users")
 			acl := &ACLSpec{}
 			for u := 0; u < users; u++ {
